@@ -131,6 +131,37 @@ function* gen(me, a, b) { var {["-"]: v = 5, [` + "`-${\"\"}`" + `]: w = (yield 
 		expect: []string{"R0 {#1 value:d:401c000000000000,done:b:false}", "R1 {#2 value:d:3ff0000000000000,done:b:false}",
 			"R2 {#3 value:[#4 d:4014000000000000,d:401c000000000000],done:b:false}"},
 	},
+	{ // inbox/C09-return-completed-before-iterators-closed.md
+		name: "return-completed-before-iterators-closed",
+		src: `var REOPS = [{o:false, kind:"next", v:1, rethrow:false, go:false}]; var AWMODE = [];
+function* inn0(me, a) { try { yield a; } finally { drive(me, 0); } }
+function* gen(me, a, b) { for (const x of inn0(me, 1)) { yield x; } }`,
+		hist:   []genref.Op{{Slot: 0, Kind: "next", Val: 0}, {Slot: 0, Kind: "return", Val: 2}, {Slot: 0, Kind: "next", Val: 0}},
+		create: [2][2]int{{1, 2}, {1, 2}},
+		ctxA:   tops(4), ctxB: []ctxSpec{top(), top(), cx("js", "getter"), cx("gotop")},
+		expect: []string{"R0 {#1 value:d:3ff0000000000000,done:b:false}", "Td0 E:TypeError", "R1 {#2 value:d:401c000000000000,done:b:true}", "R2 {#3 value:u,done:b:true}"},
+	},
+	{ // inbox/C09-iterator-close-throws-inside-returning-finally.md
+		name: "iterator-close-throws-inside-returning-finally",
+		src: `var REOPS = []; var AWMODE = [];
+function* gen(me, a, b) { try { try { yield 1; } finally { for (const x of mkIter(me, 1, 3, 4, 0, -1, 0)) { yield 2; } } } catch (e) { log("caught", e); } finally { log("fin"); } return 9; }`,
+		hist:   []genref.Op{{Slot: 0, Kind: "next", Val: 0}, {Slot: 0, Kind: "return", Val: 3}, {Slot: 0, Kind: "return", Val: 4}, {Slot: 0, Kind: "next", Val: 0}},
+		create: [2][2]int{{1, 2}, {1, 2}},
+		ctxA:   tops(5), ctxB: []ctxSpec{top(), top(), cx("js", "map"), cx("gonext", "tryf"), top()},
+		expect: []string{"R0 {#1 value:d:3ff0000000000000,done:b:false}", "L s:2:I1", "L s:2:N1 d:0000000000000000 u", "R1 {#2 value:d:4000000000000000,done:b:false}",
+			"L s:2:R1 d:0000000000000000 u", "L s:6:caught s:2:s1", "L s:3:fin", "R2 {#3 value:d:4022000000000000,done:b:true}", "R3 {#4 value:u,done:b:true}"},
+	},
+	{ // two return completions in flight at a resumption: the innermost one wins (seeded change C09-pending-return-scan)
+		name: "innermost-pending-return-wins",
+		src: `var REOPS = []; var AWMODE = [];
+function* gen(me, a, b) { try { yield 1; } finally { try { yield 2; } finally { yield 3; } yield 4; } }`,
+		hist: []genref.Op{{Slot: 0, Kind: "next", Val: 0}, {Slot: 0, Kind: "return", Val: 3}, {Slot: 0, Kind: "return", Val: 4}, {Slot: 0, Kind: "next", Val: 0},
+			{Slot: 0, Kind: "next", Val: 0}},
+		create: [2][2]int{{1, 2}, {1, 2}},
+		ctxA:   tops(6), ctxB: []ctxSpec{top(), cx("js", "deep"), top(), cx("js", "forof"), cx("gonext", "gen2"), top()},
+		expect: []string{"R0 {#1 value:d:3ff0000000000000,done:b:false}", "R1 {#2 value:d:4000000000000000,done:b:false}", "R2 {#3 value:d:4008000000000000,done:b:false}",
+			"R3 {#4 value:s:1:q,done:b:true}", "R4 {#5 value:u,done:b:true}"},
+	},
 }
 
 func pinnedCase(i int) *caseT {
